@@ -324,9 +324,14 @@ func (l *Literal) UUID() uuid.UUID {
 			buffer.WriteString("false")
 		}
 	case int64:
-		b := make([]byte, 8)
-		binary.PutVarint(b, v)
-		buffer.Write(b)
+		// Values that fit are written as before (the varint padded with zeros to 8
+		// bytes); the ones that need 9 or 10 bytes are written in full.
+		b := make([]byte, binary.MaxVarintLen64)
+		n := binary.PutVarint(b, v)
+		if n < 8 {
+			n = 8
+		}
+		buffer.Write(b[:n])
 	case float64:
 		bs := math.Float64bits(v)
 		b := make([]byte, 8)
